@@ -1067,7 +1067,7 @@ def _work(args):
 
 def run(run):
     import multiprocessing
-    ncases = 1900 if run.thorough else 120
+    ncases = 1200 if run.thorough else 120
     cases = load_corpus()
     run.count("corpus", len(cases))
     nmax = 7 if run.thorough else 4
